@@ -6,6 +6,11 @@
 // fresh in-process server built from the real handlers and one real ArrowBuffer, inside a WORKER
 // SUBPROCESS: a panic in the flush worker goroutine (or in the flush that stands in for the
 // age-triggered background flush) kills that process, which is exactly what the parent observes.
+//
+// Debugging aids (environment): VERIF_C04_SEQ="atom ; atom" [VERIF_C04_MODE=final|size3|size5] runs one
+// sequence and prints its outcome; VERIF_C04_KEEP=1 prints the workers' stderr; VERIF_C04_DUMP=1|all
+// prints per-sequence outcomes; VERIF_C04_MAXLEN=1 restricts the enumeration to single requests;
+// VERIF_C04_WATCHDOG_S overrides the per-sequence hang watchdog (900 s).
 package main
 
 import (
@@ -499,11 +504,14 @@ func main() {
 		for _, f := range o.findings() {
 			raw++
 			minimal := true
-			for d := range o.Job.Seq {
-				if len(o.Job.Seq) == 1 {
-					break
+			n := len(o.Job.Seq)
+			for mask := 1; mask < (1<<n)-1 && minimal; mask++ { // every proper, non-empty subsequence
+				var sub []int
+				for d := 0; d < n; d++ {
+					if mask&(1<<d) != 0 {
+						sub = append(sub, o.Job.Seq[d])
+					}
 				}
-				sub := append(append([]int{}, o.Job.Seq[:d]...), o.Job.Seq[d+1:]...)
 				so := byKey[seqKey(o.Job.Mode, sub)]
 				if so == nil { // size trigger unreachable for the sub-sequence: its final-mode run is the same run
 					so = byKey[seqKey("final", sub)]
@@ -705,7 +713,7 @@ func replayMain(run *ev.Run, A []atom, byName map[string]int) {
 		}
 		seq = append(seq, i)
 	}
-	o := runChunk([]job{{ID: 0, Mode: rf.Replay.Mode, Seq: seq}})[0]
+	o := runChunk([]job{{ID: 0, Mode: rf.Replay.Mode, Seq: seq}}, "VERIF_C04_NORECOVER=1")[0]
 	fmt.Printf("replay [%s] mode=%s\n", seqNames(A, seq), rf.Replay.Mode)
 	if o.Crash != nil {
 		fmt.Printf("worker died: %s\n%s\n", o.Crash.Exit, o.Crash.Trace)
